@@ -5,6 +5,7 @@ CONSTANTS
   MaxIgnore = 0
   MaxMatchConds = 2
   MaxIgnoreConds = 0
+  Shared = FALSE
   Reduced = FALSE
   WithAlt = FALSE
 INVARIANTS Inv_C09 Inv_Shortcut
